@@ -525,7 +525,8 @@ def check_paths(ob, st: Structure, sib: Siblings, paths: List[BodyPath], r: int)
         else:
             ob("C09.3", f"{tag}: a merge does not report a change", core.VIOLATED, where,
                f"flag = {p.flag}: the pass loop stops although parents produced in this pass may complete a group of the next level")
+    n_lost = sum(1 for p in paths if any(c.left.has_opaque(True) or c.right.has_opaque(True) for c, _t in p.conds))
     if merges == 0:
-        ob("C09.6", f"{tag}: no path merges a complete sibling group", core.VIOLATED, where,
-           f"{len(paths)} paths, none emits the parent: groups of this resolution are never compacted")
+        ob("C09.6", f"{tag}: no path merges a complete sibling group", core.UNDECIDED if n_lost else core.VIOLATED, where,
+           f"{len(paths)} paths, none emits the parent" + (f" ({n_lost} of them not modelled)" if n_lost else ": groups of this resolution are never compacted"))
     return merges
